@@ -516,7 +516,7 @@ Proof.
   destruct r as [|b r]; [cbn [length] in Hlen; lia|].
   cbn [seg_region] in Hreg. apply andb_true_iff in Hreg. destruct Hreg as [Hseg Hreg].
   cbn [length] in Hlen. assert (length l <= length r)%nat as Hlen' by lia.
-  cbn [zip_match ref_match]. unfold seg_same.
+  unfold zip_match in *. cbn [zip_match_with ref_match]. unfold seg_same.
   destruct (starts_brace a && starts_brace b).
   - destruct (rp_get lv a) as [x|]; [|discriminate]. destruct (rp_get rv b) as [y|]; [|discriminate].
     destruct (str_eqb x y); [apply IH; assumption|reflexivity].
@@ -528,7 +528,7 @@ Qed.
 Lemma prefix_partial lp lv rp rv : prefix_region lp lv rp rv = true ->
   is_prefix lp lv rp rv = Some (resource_prefix lp lv rp rv).
 Proof.
-  unfold prefix_region, is_prefix, resource_prefix. intros H.
+  unfold prefix_region, is_prefix, is_prefix_with, resource_prefix. intros H.
   destruct (Nat.ltb (length (parts rp)) (length (parts lp))) eqn:E.
   - apply Nat.ltb_lt in E. rewrite ref_match_long; auto.
   - apply Nat.ltb_ge in E. apply zip_match_region; assumption.
@@ -540,7 +540,7 @@ Proof.
   induction l as [|a l IH]; intros r H; [destruct r; reflexivity|].
   destruct r as [|b r]; [discriminate|].
   cbn [ref_match] in H. apply andb_true_iff in H. destruct H as [Hs H].
-  cbn [zip_match]. unfold seg_same in Hs.
+  unfold zip_match in *. cbn [zip_match_with]. unfold seg_same in Hs.
   destruct (starts_brace a && starts_brace b).
   - destruct (rp_get lv a) as [x|]; [|discriminate]. destruct (rp_get rv b) as [y|]; [|discriminate].
     rewrite Hs. apply IH. exact H.
@@ -549,18 +549,29 @@ Qed.
 
 Lemma prefix_lenient lp lv rp rv : resource_prefix lp lv rp rv = true -> is_prefix lp lv rp rv = Some true.
 Proof.
-  unfold resource_prefix, is_prefix. intros H.
+  unfold resource_prefix, is_prefix, is_prefix_with. intros H.
   destruct (Nat.ltb (length (parts rp)) (length (parts lp))) eqn:E.
   - apply Nat.ltb_lt in E. rewrite ref_match_long in H; [discriminate|exact E].
   - apply zip_match_ref. exact H.
 Qed.
 
+Definition s_cla_id : str := [47; 99; 108; 97; 47; 123; 105; 100; 125].               (* /cla/{id} *)
 Definition s_clas_id : str := [47; 99; 108; 97; 115; 47; 123; 105; 100; 125].        (* /clas/{id} *)
 Definition s_class_id : str := [47; 99; 108; 97; 115; 115; 47; 123; 105; 100; 125].  (* /class/{id} *)
+(* F7: one plural s is still tolerated *)
 Lemma prefix_refuted :
-  is_prefix s_clas_id [(s_id, s_one)] s_class_id [(s_id, s_one)] = Some true /\
-  resource_prefix s_clas_id [(s_id, s_one)] s_class_id [(s_id, s_one)] = false.
+  is_prefix s_cla_id [(s_id, s_one)] s_clas_id [(s_id, s_one)] = Some true /\
+  resource_prefix s_cla_id [(s_id, s_one)] s_clas_id [(s_id, s_one)] = false.
 Proof. split; vm_compute; reflexivity. Qed.
+
+(* F3 (fixed by e735a769): the rstrip sentinel accepts /clas/{id} as a prefix of /class/{id},
+   the code and the reference do not, and the pair lies inside prefix_region *)
+Lemma prefix_rstrip_sentinel_refuted :
+  is_prefix_rstrip s_clas_id [(s_id, s_one)] s_class_id [(s_id, s_one)] = Some true /\
+  is_prefix s_clas_id [(s_id, s_one)] s_class_id [(s_id, s_one)] = Some false /\
+  resource_prefix s_clas_id [(s_id, s_one)] s_class_id [(s_id, s_one)] = false /\
+  prefix_region s_clas_id [(s_id, s_one)] s_class_id [(s_id, s_one)] = true.
+Proof. repeat split; vm_compute; reflexivity. Qed.
 
 Lemma prefix_region_nonvacuous :
   prefix_region s_users_id [(s_id, s_one)] (s_users_id ++ [47; 120]) [(s_id, s_one)] = true /\
@@ -888,16 +899,28 @@ Lemma avail_refuted_override :
   reported (ensure_resource_availability h_nolink c_nolink 404) = true /\ avail_allowed h_nolink c_nolink 404 = false.
 Proof. repeat split; try (vm_compute; reflexivity). right. left. reflexivity. Qed.
 
-(* F3 seen from the checks: DELETE /clas/1 accused for GET /class/1 *)
+(* F7 seen from the checks: DELETE /cla/1 accused for GET /clas/1 *)
 Definition s_cla : str := [47; 99; 108; 97].
 Definition h_clas : history :=
   [mkn 1 None m_post s_cla no_comp [] [] (Some 201);
-   mkn 2 (Some 1) m_delete s_clas_id id1 p_id p_id (Some 204);
-   mkn 3 (Some 2) m_get s_class_id id1 p_id p_id (Some 200)].
-Definition c_clas := mkn 3 (Some 2) m_get s_class_id id1 p_id p_id (Some 200).
+   mkn 2 (Some 1) m_delete s_cla_id id1 p_id p_id (Some 204);
+   mkn 3 (Some 2) m_get s_clas_id id1 p_id p_id (Some 200)].
+Definition c_clas := mkn 3 (Some 2) m_get s_clas_id id1 p_id p_id (Some 200).
 Lemma uaf_refuted_prefix :
   wf h_clas = true /\ In c_clas h_clas /\ is_last h_clas c_clas = true /\ delete_agrees_with_parent h_clas = true /\
   reported (use_after_free h_clas c_clas 200) = true /\ uaf_allowed h_clas c_clas 200 = false.
+Proof. repeat split; try (vm_compute; reflexivity). right. right. left. reflexivity. Qed.
+
+(* what was accused before e735a769 is left alone now: DELETE /clas/1 204 -> GET /class/1 200, all regions hold *)
+Definition h_class : history :=
+  [mkn 1 None m_post s_cla no_comp [] [] (Some 201);
+   mkn 2 (Some 1) m_delete s_clas_id id1 p_id p_id (Some 204);
+   mkn 3 (Some 2) m_get s_class_id id1 p_id p_id (Some 200)].
+Definition c_class := mkn 3 (Some 2) m_get s_class_id id1 p_id p_id (Some 200).
+Lemma uaf_class_not_accused :
+  wf h_class = true /\ In c_class h_class /\ is_last h_class c_class = true /\ delete_agrees_with_parent h_class = true /\
+  prefix_region_all h_class c_class = true /\
+  use_after_free h_class c_class 200 = Pass /\ uaf_allowed h_class c_class 200 = false.
 Proof. repeat split; try (vm_compute; reflexivity). right. right. left. reflexivity. Qed.
 
 (* ---------- unrelated resources are never accused ---------- *)
